@@ -285,7 +285,32 @@ struct Known {
     signature: String,
     grammar: Option<String>,
     detail_contains: Option<String>,
+    /// the finding is about JSON arrays with minItems / maxItems of at least this size
+    array_items_at_least: Option<u64>,
     what: String,
+}
+
+/// largest number following "minItems" / "maxItems" in a schema text
+fn max_array_items(text: &str) -> Option<u64> {
+    let mut best: Option<u64> = None;
+    for key in ["\"minItems\"", "\"maxItems\""] {
+        let mut i = 0;
+        while let Some(p) = text[i..].find(key) {
+            let st = i + p + key.len();
+            let rest: String = text[st..]
+                .chars()
+                .skip_while(|c| *c == ':' || c.is_whitespace())
+                .take_while(|c| c.is_ascii_digit())
+                .collect();
+            if let Ok(v) = rest.parse::<u64>() {
+                best = Some(best.map_or(v, |b| b.max(v)));
+            } else if rest.len() > 19 {
+                best = Some(u64::MAX);
+            }
+            i = st;
+        }
+    }
+    best
 }
 
 fn load_known(path: &str) -> Vec<Known> {
@@ -302,6 +327,7 @@ fn load_known(path: &str) -> Vec<Known> {
                             .get("detail_contains")
                             .and_then(|x| x.as_str())
                             .map(|s| s.to_string()),
+                        array_items_at_least: k.get("array_items_at_least").and_then(|x| x.as_u64()),
                         what: k["what"].as_str().unwrap_or("").to_string(),
                     });
                 }
@@ -486,14 +512,20 @@ fn batch(args: &[String]) -> i32 {
     let mut viol_lines = vec![];
     for (v, replay) in &violations {
         let sig = v["signature"].as_str().unwrap_or("");
-        let grammar = std::fs::read_to_string(replay)
+        let rfile = std::fs::read_to_string(replay)
             .ok()
-            .and_then(|s| serde_json::from_str::<Value>(&s).ok())
+            .and_then(|s| serde_json::from_str::<Value>(&s).ok());
+        let grammar = rfile
+            .as_ref()
             .and_then(|r| r["scenario"]["world"]["grammar_id"].as_str().map(|s| s.to_string()));
+        let items = rfile
+            .as_ref()
+            .and_then(|r| r["scenario"]["world"]["grammar_text"].as_str().and_then(max_array_items));
         let k = known.iter().find(|k| {
             k.property == prop
                 && k.signature == sig
                 && (k.grammar.is_none() || k.grammar == grammar)
+                && k.array_items_at_least.map(|n| items.map(|i| i >= n).unwrap_or(false)).unwrap_or(true)
                 && k
                     .detail_contains
                     .as_ref()
